@@ -13,8 +13,36 @@ def want(x, dt, N):
     return F[:half] * dt, np.arange(half) / (N * dt)
 
 
+def replay_max_fa_period(info, ce):
+    """the reported period must be 1/f of a bin of largest AMPLITUDE |F_k| of the object's own spectrum"""
+    import eqsig
+    from eqsig import im
+    rng = np.random.RandomState(6)
+    tried = 0
+    for n in (8, 16, 33, 64, 200):
+        for trial in range(6):
+            x = rng.randn(n)
+            x -= np.mean(x)
+            if trial % 2:
+                t = np.arange(n) * 0.02
+                x = np.sin(2 * np.pi * (1.0 + trial) * t + 0.3 * trial * np.pi) + 0.05 * rng.randn(n)      # phase decides the real part
+            a = eqsig.AccSignal(x, 0.02)
+            with np.errstate(all='ignore'):
+                got = im.max_fa_period(a)
+                amp = np.abs(a.fa_spectrum)
+                best = np.flatnonzero(amp >= amp.max() * (1 - 1e-12))
+                want = [1.0 / a.fa_frequencies[k] for k in best]
+            tried += 1
+            if not any(got == w or abs(got - w) <= 1e-12 * abs(w) for w in want):
+                return dict(status='confirmed', observed={'reported_period': float(got), 'period_of_largest_amplitude_bin': [float(w) for w in want]},
+                            detail='max_fa_period reports %.6g but the largest-amplitude bin has period %s' % (got, want), input={'values': x.tolist(), 'dt': 0.02})
+    return dict(status='not-reproduced', detail='max_fa_period reports the largest-amplitude bin on %d battery records' % tried)
+
+
 def replay(info, ce):
     import eqsig
+    if info.get('op') == 'max_fa_period':
+        return replay_max_fa_period(info, ce)
     cls = getattr(eqsig, info.get('cls', 'Signal'))
     how, pre = info.get('how', 'default'), info.get('pre', 'fresh')
     rng = np.random.RandomState(3)
